@@ -1,8 +1,454 @@
-(* C16 — proofs about the eviction-cap model (PodEvictor and proxy/limiter). *)
+(* C16 — proofs about the eviction-cap model.
+   PodEvictor (reserve / API / unreserve): for EVERY schedule (hence every interleaving) the
+   evictions issued and not failed stay within the caps, the counters account exactly for the
+   reserved slots, a refusal has no side effect, dry-run sends nothing.
+   Proxy + limiter (AllowEvict / plugin / Done): the same under the discipline "nobody enters
+   AllowEvict while another eviction is in flight" (in particular for a sequential caller), and a
+   concrete interleaving that exceeds the cap without it. *)
 From Coq Require Import List ZArith Bool Lia.
 From Verif Require Import Lib.ListX C16.Model C16.Spec.
 Import ListNotations.
 Open Scope Z_scope.
 
+(* ------------------------------------------------------------------ *)
+(* lists                                                                *)
+(* ------------------------------------------------------------------ *)
 Lemma set_nth_length {A} i (v : A) l : length (set_nth i v l) = length l.
 Proof. revert i; induction l as [|x l IH]; intros [|i]; cbn; auto. Qed.
+
+Lemma nth_error_set_nth_same {A} i (v p : A) l :
+  nth_error l i = Some p -> nth_error (set_nth i v l) i = Some v.
+Proof. revert i; induction l as [|x l IH]; intros [|i]; cbn; try discriminate; auto. Qed.
+
+Lemma nth_error_set_nth_other {A} i j (v : A) l :
+  i <> j -> nth_error (set_nth i v l) j = nth_error l j.
+Proof.
+  revert i j; induction l as [|x l IH]; intros [|i] [|j] H; cbn; auto; try congruence.
+Qed.
+
+(* a weighted sum over the threads *)
+Definition tsum (w : req -> pc -> Z) (reqs : list req) (ps : list pc) : Z :=
+  sumZ (map (fun rp => w (fst rp) (snd rp)) (combine reqs ps)).
+
+Lemma tsum_set_nth w reqs ps i p p' r :
+  nth_error ps i = Some p -> nth_error reqs i = Some r ->
+  tsum w reqs (set_nth i p' ps) = tsum w reqs ps - w r p + w r p'.
+Proof.
+  unfold tsum. revert reqs i.
+  induction ps as [|x ps IH]; intros [|r0 reqs] [|i]; cbn; try discriminate.
+  - intros H1 H2. inversion H1; inversion H2; subst. rewrite !sumZ_cons. cbn. lia.
+  - intros H1 H2. rewrite !sumZ_cons, (IH reqs i H1 H2). lia.
+Qed.
+
+Lemma tsum_le w w' reqs ps :
+  (forall r p, w r p <= w' r p) -> tsum w reqs ps <= tsum w' reqs ps.
+Proof. intro H. unfold tsum. apply sumZ_map_le. intros [r p] _. apply H. Qed.
+
+Lemma tsum_ext w w' reqs ps :
+  (forall r p, In p ps -> w r p = w' r p) -> tsum w reqs ps = tsum w' reqs ps.
+Proof.
+  intro H. unfold tsum. apply sumZ_map_ext. intros [r p] Hin. apply H.
+  apply in_combine_r in Hin. exact Hin.
+Qed.
+
+Lemma tsum_repeat_zero w reqs p n : (forall r, w r p = 0) -> tsum w reqs (repeat p n) = 0.
+Proof.
+  intro H. unfold tsum. apply sumZ_map_zero. intros [r q] Hin.
+  apply in_combine_r, repeat_spec in Hin. cbn. subst. apply H.
+Qed.
+
+(* counting over a duplicate-free list of thread ids when one thread changes *)
+Definition cnt (g : nat -> bool) (l : list nat) : Z := Z.of_nat (length (filter g l)).
+
+Lemma cnt_cons g i l : cnt g (i :: l) = (if g i then 1 else 0) + cnt g l.
+Proof. unfold cnt. cbn [filter]. destruct (g i); cbn [length]; lia. Qed.
+
+Lemma cnt_ext_notin g g' i l :
+  ~ In i l -> (forall j, j <> i -> g' j = g j) -> cnt g' l = cnt g l.
+Proof.
+  induction l as [|x l IH]; intros Hn Hg; [reflexivity|].
+  rewrite !cnt_cons, IH by (auto; intro; apply Hn; right; assumption).
+  rewrite Hg; [reflexivity|]. intro; subst. apply Hn. left; reflexivity.
+Qed.
+
+Lemma cnt_change g g' i l :
+  NoDup l -> In i l -> (forall j, j <> i -> g' j = g j) ->
+  cnt g' l = cnt g l - (if g i then 1 else 0) + (if g' i then 1 else 0).
+Proof.
+  induction l as [|x l IH]; intros Hnd Hin Hg; [destruct Hin|].
+  inversion Hnd as [|? ? Hnx Hnd']; subst. rewrite !cnt_cons.
+  destruct Hin as [->|Hin].
+  - rewrite (cnt_ext_notin g g' i l Hnx Hg). lia.
+  - rewrite (IH Hnd' Hin Hg). rewrite (Hg x); [lia|]. intro; subst. contradiction.
+Qed.
+
+(* ------------------------------------------------------------------ *)
+(* the shape of a step                                                  *)
+(* ------------------------------------------------------------------ *)
+Definition apply_tr (s : est) (i : nat) (r : req) (d : Z) (call : bool) (p' : pc) : est :=
+  set_pc (if call then add_call (bump s r d) i else bump s r d) i p'.
+
+Lemma cn_apply_tr s i r d call p' k :
+  cn (apply_tr s i r d call p') k
+  = cn s k + (if (r_node r =? k) && negb (k =? 0) then d else 0).
+Proof.
+  unfold apply_tr. destruct call; cbn; unfold upd;
+  destruct (r_node r =? 0) eqn:E0; cbn.
+  all: destruct (r_node r =? k) eqn:Ek; try (apply Z.eqb_eq in Ek); try (apply Z.eqb_eq in E0);
+       try (apply Z.eqb_neq in Ek); try (apply Z.eqb_neq in E0); cbn.
+  all: try (replace (k =? 0) with true by (symmetry; apply Z.eqb_eq; lia); cbn; lia).
+  all: try (replace (k =? 0) with false by (symmetry; apply Z.eqb_neq; lia); cbn).
+  all: try (replace (k =? r_node r) with true by (symmetry; apply Z.eqb_eq; lia); lia).
+  all: try (replace (k =? r_node r) with false by (symmetry; apply Z.eqb_neq; lia); lia).
+  all: try lia.
+  all: destruct (k =? 0); cbn; lia.
+Qed.
+
+Lemma cs_apply_tr s i r d call p' k :
+  cs (apply_tr s i r d call p') k = cs s k + (if r_ns r =? k then d else 0).
+Proof.
+  unfold apply_tr. destruct call; cbn; unfold upd; rewrite (Z.eqb_sym k);
+  destruct (r_ns r =? k) eqn:Ek; try (apply Z.eqb_eq in Ek; subst); lia.
+Qed.
+
+Lemma ct_apply_tr s i r d call p' : ct (apply_tr s i r d call p') = ct s + d.
+Proof. unfold apply_tr. destruct call; reflexivity. Qed.
+
+Lemma pcs_apply_tr s i r d call p' : pcs (apply_tr s i r d call p') = set_nth i p' (pcs s).
+Proof. unfold apply_tr. destruct call; reflexivity. Qed.
+
+Lemma calls_apply_tr s i r d call p' :
+  calls (apply_tr s i r d call p') = if call then i :: calls s else calls s.
+Proof. unfold apply_tr. destruct call; reflexivity. Qed.
+
+(* pointwise-equal counters are as good as equal ones: bump by 0 *)
+Definition est_eqv (a b : est) : Prop :=
+  (forall k, cn a k = cn b k) /\ (forall k, cs a k = cs b k) /\ ct a = ct b
+  /\ pcs a = pcs b /\ calls a = calls b.
+
+Lemma set_pc_as_tr s i r p' : est_eqv (set_pc s i p') (apply_tr s i r 0 false p').
+Proof.
+  repeat split; intros.
+  - rewrite cn_apply_tr. cbn. destruct (_ && _); lia.
+  - rewrite cs_apply_tr. cbn. destruct (_ =? _); lia.
+  - rewrite ct_apply_tr. cbn. lia.
+Qed.
+
+(* ---------- PodEvictor ---------- *)
+Inductive pe_trans (dry : bool) (c : caps) (r : req) (s : est) : pc -> Z -> bool -> pc -> Prop :=
+| pt_refuse : pe_trans dry c r s PStart 0 false PRefused
+| pt_dry : dry = true ->
+    reached (cap_node c) (cn s (r_node r)) = false -> reached (cap_ns c) (cs s (r_ns r)) = false ->
+    pe_trans dry c r s PStart 0 false PDoneOk
+| pt_reserve : dry = false ->
+    reached (cap_node c) (cn s (r_node r)) = false -> reached (cap_ns c) (cs s (r_ns r)) = false ->
+    pe_trans dry c r s PStart 1 false PAdmitted
+| pt_send : pe_trans dry c r s PAdmitted 0 true PInApi
+| pt_ok : r_ok r = true -> pe_trans dry c r s PInApi 0 false PDoneOk
+| pt_err : r_ok r = false -> pe_trans dry c r s PInApi 0 false PPost
+| pt_unreserve : pe_trans dry c r s PPost (-1) false PDoneFail.
+
+Lemma pe_step_shape dry c reqs s i :
+  pe_step dry c reqs s i = s
+  \/ exists p r d call p',
+       nth_error (pcs s) i = Some p /\ nth_error reqs i = Some r /\
+       pe_trans dry c r s p d call p' /\
+       est_eqv (pe_step dry c reqs s i) (apply_tr s i r d call p').
+Proof.
+  unfold pe_step.
+  destruct (nth_error (pcs s) i) as [p|] eqn:Ep; [|left; reflexivity].
+  destruct (nth_error reqs i) as [r|] eqn:Er; [|left; reflexivity].
+  destruct p; try (left; reflexivity); right.
+  - destruct (reached (cap_node c) (cn s (r_node r))) eqn:E1.
+    { exists PStart, r, 0, false, PRefused. repeat split; auto using pt_refuse; apply set_pc_as_tr. }
+    destruct (reached (cap_ns c) (cs s (r_ns r))) eqn:E2.
+    { exists PStart, r, 0, false, PRefused. repeat split; auto using pt_refuse; apply set_pc_as_tr. }
+    destruct dry eqn:Ed.
+    { exists PStart, r, 0, false, PDoneOk. repeat split; auto using pt_dry; apply set_pc_as_tr. }
+    exists PStart, r, 1, false, PAdmitted. repeat split; auto using pt_reserve.
+  - exists PAdmitted, r, 0, true, PInApi. split; [auto|]. split; [auto|]. split; [constructor|].
+    repeat split; intros; cbn.
+    + rewrite cn_apply_tr. cbn. destruct (_ && _); lia.
+    + rewrite cs_apply_tr. cbn. destruct (_ =? _); lia.
+    + lia.
+  - destruct (r_ok r) eqn:Eo.
+    + exists PInApi, r, 0, false, PDoneOk. repeat split; auto using pt_ok; apply set_pc_as_tr.
+    + exists PInApi, r, 0, false, PPost. repeat split; auto using pt_err; apply set_pc_as_tr.
+  - exists PPost, r, (-1), false, PDoneFail. repeat split; auto using pt_unreserve.
+Qed.
+
+(* a slot is held from reserve until unreserve; nothing is held in dry-run *)
+Definition held (p : pc) : bool :=
+  match p with PAdmitted | PInApi | PPost | PDoneOk => true | _ => false end.
+(* the API call was received *)
+Definition called (p : pc) : bool :=
+  match p with PInApi | PPost | PDoneFail | PDoneOk => true | _ => false end.
+(* ... and is not known to have failed *)
+Definition live (p : pc) : bool := match p with PInApi | PDoneOk => true | _ => false end.
+Definition in_flight (p : pc) : bool :=
+  match p with PAdmitted | PInApi | PPost => true | _ => false end.
+
+Definition w_of (dry : bool) (sel : req -> bool) (f : pc -> bool) (r : req) (p : pc) : Z :=
+  if negb dry && sel r && f p then 1 else 0.
+
+Definition node_sel (k : Z) (r : req) : bool := (r_node r =? k) && negb (k =? 0).
+
+(* evictions issued (API call received) and not failed, among the selected requests *)
+Definition issued_live (reqs : list req) (sel : req -> bool) (s : est) : Z :=
+  cnt (fun i => match nth_error reqs i with
+                | Some r => sel r && live (pc_of s i)
+                | None => false
+                end) (calls s).
+
+Record pe_inv (dry : bool) (c : caps) (reqs : list req) (s : est) : Prop := {
+  pi_capn : forall m k, cap_node c = Some m -> 0 <= m -> cn s k <= m;
+  pi_caps : forall m k, cap_ns c = Some m -> 0 <= m -> cs s k <= m;
+  pi_cn : forall k, cn s k = tsum (w_of dry (node_sel k) held) reqs (pcs s);
+  pi_cs : forall k, cs s k = tsum (w_of dry (on_ns k) held) reqs (pcs s);
+  pi_ct : ct s = tsum (w_of dry any_req held) reqs (pcs s);
+  pi_dry : dry = true -> forall p, In p (pcs s) -> in_flight p = false;
+  pi_nodup : NoDup (calls s);
+  pi_calls : forall i, In i (calls s) <->
+               (exists p, nth_error (pcs s) i = Some p /\ nth_error reqs i <> None
+                          /\ negb dry && called p = true);
+  pi_live : forall sel, issued_live reqs sel s = tsum (w_of dry sel live) reqs (pcs s)
+}.
+
+Lemma in_set_nth {A} i (v : A) l x : In x (set_nth i v l) -> x = v \/ In x l.
+Proof.
+  revert i; induction l as [|y l IH]; intros [|i]; cbn; auto.
+  - intros [H|H]; auto.
+  - intros [H|H]; auto. destruct (IH i H); auto.
+Qed.
+
+Lemma pc_of_nth s i p : nth_error (pcs s) i = Some p -> pc_of s i = p.
+Proof. unfold pc_of. intro H. apply nth_error_nth. exact H. Qed.
+
+Lemma pe_inv_eqv dry c reqs a b : est_eqv a b -> pe_inv dry c reqs b -> pe_inv dry c reqs a.
+Proof.
+  intros [Hn [Hs [Ht [Hp Hc]]]] [I1 I2 I3 I4 I5 I6 I7 I8 I9].
+  assert (Hl : forall sel, issued_live reqs sel a = issued_live reqs sel b).
+  { intro sel. unfold issued_live, pc_of. rewrite Hp, Hc. reflexivity. }
+  constructor; intros; rewrite ?Hn, ?Hs, ?Ht, ?Hp, ?Hc, ?Hl in *; eauto.
+Qed.
+
+Lemma pe_inv_init dry c reqs n :
+  (forall m, cap_node c = Some m -> 0 <= m) -> (forall m, cap_ns c = Some m -> 0 <= m) ->
+  pe_inv dry c reqs (init_est n).
+Proof.
+  intros Hc1 Hc2.
+  assert (Hz : forall sel f, f PStart = false -> tsum (w_of dry sel f) reqs (repeat PStart n) = 0).
+  { intros sel f Hf. apply tsum_repeat_zero. intro r. unfold w_of. rewrite Hf.
+    rewrite andb_false_r. reflexivity. }
+  constructor; cbn [init_est cn cs ct pcs calls]; intros; rewrite ?Hz by reflexivity; auto; try lia.
+  - apply repeat_spec in H0. subst. reflexivity.
+  - constructor.
+  - split; [intros []|]. intros [p [Hp [_ Hcall]]].
+    apply nth_error_In, repeat_spec in Hp. subst. rewrite andb_false_r in Hcall. discriminate.
+  - reflexivity.
+Qed.
+
+Lemma pe_inv_step dry c reqs s i :
+  pe_inv dry c reqs s -> pe_inv dry c reqs (pe_step dry c reqs s i).
+Proof.
+  intro I. destruct (pe_step_shape dry c reqs s i) as [->|[p [r [d [call [p' [Hp [Hr [Htr Heq]]]]]]]]];
+    [exact I|].
+  eapply pe_inv_eqv; [exact Heq|]. clear Heq.
+  destruct I as [I1 I2 I3 I4 I5 I6 I7 I8 I9].
+  (* the change of every weighted sum *)
+  assert (Hsum : forall sel f,
+            tsum (w_of dry sel f) reqs (pcs (apply_tr s i r d call p'))
+            = tsum (w_of dry sel f) reqs (pcs s) - w_of dry sel f r p + w_of dry sel f r p').
+  { intros. rewrite pcs_apply_tr. apply tsum_set_nth; assumption. }
+  (* in dry-run no thread is in flight, so only the Start transitions occur *)
+  assert (Hdry : dry = true -> in_flight p = false).
+  { intro Hd. apply (I6 Hd). eapply nth_error_In; eassumption. }
+  (* held changes exactly by d *)
+  assert (Hheld : forall sel, w_of dry sel held r p' - w_of dry sel held r p
+                               = if sel r then d else 0).
+  { intro sel. unfold w_of. destruct Htr; cbn [held]; destruct dry; cbn [negb andb];
+      try discriminate; try (specialize (Hdry eq_refl); discriminate);
+      destruct (sel r); cbn; lia. }
+  constructor.
+  - (* cap per node *)
+    intros m k Hc Hm. rewrite cn_apply_tr. specialize (I1 m k Hc Hm).
+    destruct ((r_node r =? k) && negb (k =? 0)) eqn:Ek; [|lia].
+    apply andb_true_iff in Ek. destruct Ek as [Ek _]. apply Z.eqb_eq in Ek. subst k.
+    destruct Htr; try lia.
+    match goal with H : reached (cap_node c) _ = false |- _ => rewrite Hc in H; cbn in H;
+      apply Z.leb_gt in H; lia end.
+  - intros m k Hc Hm. rewrite cs_apply_tr. specialize (I2 m k Hc Hm).
+    destruct (r_ns r =? k) eqn:Ek; [|lia]. apply Z.eqb_eq in Ek. subst k.
+    destruct Htr; try lia.
+    match goal with H : reached (cap_ns c) _ = false |- _ => rewrite Hc in H; cbn in H;
+      apply Z.leb_gt in H; lia end.
+  - intro k. rewrite cn_apply_tr, Hsum, I3. specialize (Hheld (node_sel k)).
+    unfold node_sel in *. lia.
+  - intro k. rewrite cs_apply_tr, Hsum, I4. specialize (Hheld (on_ns k)). unfold on_ns in *. lia.
+  - rewrite ct_apply_tr, Hsum, I5. specialize (Hheld any_req). unfold any_req in *. lia.
+  - intros Hd q Hq. rewrite pcs_apply_tr in Hq. apply in_set_nth in Hq. destruct Hq as [->|Hq]; [|eauto].
+    specialize (Hdry Hd). destruct Htr; try reflexivity; try discriminate.
+  - rewrite calls_apply_tr. destruct call; [|exact I7]. constructor; [|exact I7].
+    intro Hin. apply I8 in Hin. destruct Hin as [q [Hq [_ Hc]]]. rewrite Hp in Hq. inversion Hq; subst q.
+    inversion Htr; subst; rewrite andb_false_r in Hc; discriminate.
+  - (* characterisation of the call log *)
+    intro j. rewrite calls_apply_tr, pcs_apply_tr.
+    destruct (Nat.eq_dec j i) as [->|Hne].
+    + rewrite (nth_error_set_nth_same i p' p _ Hp).
+      assert (Hold : In i (calls s) <-> negb dry && called p = true).
+      { rewrite I8. split.
+        - intros [q [Hq [_ Hc]]]. rewrite Hp in Hq. inversion Hq; subst; exact Hc.
+        - intro Hc. exists p. split; [exact Hp|]. split; [congruence|exact Hc]. }
+      split.
+      * intro Hin. exists p'. split; [reflexivity|]. split; [congruence|].
+        destruct call.
+        -- inversion Htr; subst. destruct dry; [specialize (Hdry eq_refl); discriminate|reflexivity].
+        -- apply Hold in Hin. inversion Htr; subst; cbn in *; auto; try discriminate;
+           try (rewrite andb_false_r in Hin; discriminate).
+      * intros [q [Hq [_ Hc]]]. inversion Hq; subst q.
+        destruct call; [left; reflexivity|]. apply Hold.
+        inversion Htr; subst; cbn in *; auto; try (rewrite andb_false_r in Hc; discriminate).
+    + rewrite (nth_error_set_nth_other i j p' _ (not_eq_sym Hne)).
+      destruct call; [|apply I8]. cbn [In]. rewrite I8. split; [intros [H|H]; [congruence|exact H]|auto].
+  - (* issued and not failed *)
+    intro sel. rewrite Hsum, <- I9. unfold issued_live. rewrite calls_apply_tr.
+    set (g := fun j => match nth_error reqs j with
+                       | Some r0 => sel r0 && live (pc_of s j) | None => false end).
+    set (g' := fun j => match nth_error reqs j with
+                        | Some r0 => sel r0 && live (pc_of (apply_tr s i r d call p') j)
+                        | None => false end).
+    assert (Hoth : forall j, j <> i -> g' j = g j).
+    { intros j Hj. unfold g, g', pc_of. rewrite pcs_apply_tr.
+      destruct (nth_error reqs j); [|reflexivity].
+      f_equal. f_equal. apply nth_error_nth' with (d := PRefused) in Hp as _.
+      unfold nth. revert j Hj. generalize (pcs s) as l. clear. intros l.
+      revert i. induction l as [|x l IH]; intros [|i] [|j] Hj; cbn; auto; try congruence.
+      apply IH. congruence. }
+    assert (Hgi : g i = sel r && live p).
+    { unfold g. rewrite Hr, (pc_of_nth s i p Hp). reflexivity. }
+    assert (Hg'i : g' i = sel r && live p').
+    { unfold g'. rewrite Hr. unfold pc_of. rewrite pcs_apply_tr.
+      rewrite (nth_error_nth _ _ _ (nth_error_set_nth_same i p' p _ Hp)). reflexivity. }
+    assert (Hin : In i (calls s) <-> negb dry && called p = true).
+    { rewrite I8. split.
+      - intros [q [Hq [_ Hc]]]. rewrite Hp in Hq. inversion Hq; subst; exact Hc.
+      - intro Hc. exists p. split; [exact Hp|]. split; [congruence|exact Hc]. }
+    unfold w_of.
+    destruct call.
+    + (* the API call is received now: i was not in the log *)
+      inversion Htr; subst.
+      assert (Hni : ~ In i (calls s)).
+      { rewrite Hin. rewrite andb_false_r. discriminate. }
+      rewrite cnt_cons, (cnt_ext_notin g g' i _ Hni Hoth), Hg'i. cbn [live held].
+      destruct dry; [specialize (Hdry eq_refl); discriminate|]. cbn [negb andb].
+      rewrite andb_false_r, andb_true_r. destruct (sel r); lia.
+    + destruct (negb dry && called p) eqn:Ec.
+      * rewrite (cnt_change g g' i _ I7 (proj2 Hin eq_refl) Hoth), Hgi, Hg'i.
+        apply andb_true_iff in Ec. destruct Ec as [Ed _]. rewrite Ed. cbn [andb].
+        destruct (sel r), (live p), (live p'); cbn; lia.
+      * assert (Hni : ~ In i (calls s)) by (rewrite Hin; discriminate).
+        rewrite (cnt_ext_notin g g' i _ Hni Hoth).
+        inversion Htr; subst; cbn [live called] in *; rewrite ?andb_false_r;
+          try (destruct (negb dry && sel r); lia).
+        all: destruct dry; cbn in *; try discriminate; try lia;
+             try (specialize (Hdry eq_refl); discriminate).
+Qed.
+
+Lemma pe_inv_exec dry c reqs sched s :
+  pe_inv dry c reqs s -> pe_inv dry c reqs (exec (pe_step dry c reqs) s sched).
+Proof.
+  unfold exec. revert s. induction sched as [|i t IH]; intros s I; cbn [fold_left]; [exact I|].
+  apply IH, pe_inv_step, I.
+Qed.
+
+Definition caps_nonneg (c : caps) : Prop :=
+  (forall m, cap_node c = Some m -> 0 <= m) /\ (forall m, cap_ns c = Some m -> 0 <= m)
+  /\ (forall m, cap_total c = Some m -> 0 <= m).
+
+Lemma live_le_held dry sel reqs ps :
+  tsum (w_of dry sel live) reqs ps <= tsum (w_of dry sel held) reqs ps.
+Proof.
+  apply tsum_le. intros r p. unfold w_of. destruct (negb dry && sel r); cbn; [|lia].
+  destruct p; cbn; lia.
+Qed.
+
+(* the central statement, for every schedule *)
+Theorem pe_conc_caps_all dry c reqs sched :
+  caps_nonneg c ->
+  let s := exec (pe_step dry c reqs) (init_est (length reqs)) sched in
+  (forall m k, cap_node c = Some m -> k <> 0 -> issued_live reqs (on_node k) s <= m)
+  /\ (forall m k, cap_ns c = Some m -> issued_live reqs (on_ns k) s <= m).
+Proof.
+  intros [Hc1 [Hc2 _]] s.
+  assert (I : pe_inv dry c reqs s) by (apply pe_inv_exec, pe_inv_init; assumption).
+  destruct I as [I1 I2 I3 I4 I5 I6 I7 I8 I9]. split.
+  - intros m k Hc Hk. specialize (I1 m k Hc (Hc1 m Hc)). rewrite I3 in I1.
+    rewrite I9. eapply Z.le_trans; [apply live_le_held|].
+    erewrite tsum_ext; [exact I1|]. intros r p _. unfold w_of, node_sel, on_node.
+    replace (k =? 0) with false by (symmetry; apply Z.eqb_neq, Hk). rewrite andb_true_r. reflexivity.
+  - intros m k Hc. specialize (I2 m k Hc (Hc2 m Hc)). rewrite I4 in I2.
+    rewrite I9. eapply Z.le_trans; [apply live_le_held|exact I2].
+Qed.
+
+(* the counters account exactly for the slots held; once nothing is between reserve and the API
+   call or between a failed call and unreserve, they equal the evictions issued and not failed *)
+Definition settled (s : est) : Prop :=
+  forall p, In p (pcs s) -> p <> PAdmitted /\ p <> PPost.
+
+Theorem pe_counters_exact dry c reqs sched :
+  caps_nonneg c ->
+  let s := exec (pe_step dry c reqs) (init_est (length reqs)) sched in
+  settled s ->
+  (forall k, k <> 0 -> cn s k = issued_live reqs (on_node k) s) /\ cn s 0 = 0
+  /\ (forall k, cs s k = issued_live reqs (on_ns k) s)
+  /\ ct s = issued_live reqs any_req s.
+Proof.
+  intros [Hc1 [Hc2 _]] s Hset.
+  assert (I : pe_inv dry c reqs s) by (apply pe_inv_exec, pe_inv_init; assumption).
+  destruct I as [I1 I2 I3 I4 I5 I6 I7 I8 I9].
+  assert (Heq : forall sel sel', (forall r, sel r = sel' r) ->
+            tsum (w_of dry sel held) reqs (pcs s) = tsum (w_of dry sel' live) reqs (pcs s)).
+  { intros sel sel' Hs. apply tsum_ext. intros r p Hp. unfold w_of. rewrite Hs.
+    destruct (Hset p Hp) as [H1 H2]. destruct p; try reflexivity; congruence. }
+  repeat split.
+  - intros k Hk. rewrite I3, I9. apply Heq. intro r. unfold node_sel, on_node.
+    replace (k =? 0) with false by (symmetry; apply Z.eqb_neq, Hk). apply andb_true_r.
+  - rewrite I3. unfold tsum. apply sumZ_map_zero. intros [r p] _. unfold w_of, node_sel. cbn.
+    rewrite !andb_false_r. reflexivity.
+  - intro k. rewrite I4, I9. apply Heq. reflexivity.
+  - rewrite I5, I9. apply Heq. reflexivity.
+Qed.
+
+(* dry-run sends nothing *)
+Theorem pe_dry_no_call c reqs sched :
+  caps_nonneg c ->
+  calls (exec (pe_step true c reqs) (init_est (length reqs)) sched) = [].
+Proof.
+  intros [Hc1 [Hc2 _]].
+  assert (I : pe_inv true c reqs (exec (pe_step true c reqs) (init_est (length reqs)) sched))
+    by (apply pe_inv_exec, pe_inv_init; assumption).
+  destruct (calls _) as [|i l] eqn:E; [reflexivity|].
+  assert (Hin : In i (calls (exec (pe_step true c reqs) (init_est (length reqs)) sched)))
+    by (rewrite E; left; reflexivity).
+  apply (pi_calls _ _ _ _ I) in Hin. destruct Hin as [p [_ [_ H]]]. discriminate.
+Qed.
+
+(* a refused eviction changes nothing but the caller's own program counter *)
+Theorem pe_refusal_frame dry c reqs s i :
+  pc_of s i = PStart -> pc_of (pe_step dry c reqs s i) i = PRefused ->
+  let s' := pe_step dry c reqs s i in
+  cn s' = cn s /\ cs s' = cs s /\ ct s' = ct s /\ calls s' = calls s
+  /\ forall j, j <> i -> pc_of s' j = pc_of s j.
+Proof.
+  unfold pe_step, pc_of. intros Hs.
+  destruct (nth_error (pcs s) i) as [p|] eqn:Ep; [|intros; cbn; auto].
+  rewrite (nth_error_nth _ _ PRefused Ep) in Hs. subst p.
+  destruct (nth_error reqs i) as [r|] eqn:Er; [|intros; cbn; auto].
+  assert (Hoth : forall p' j, j <> i -> nth j (set_nth i p' (pcs s)) PRefused = nth j (pcs s) PRefused).
+  { intros p' j Hj. generalize (pcs s) as l. clear - Hj. intro l. revert i j Hj.
+    induction l as [|x l IH]; intros [|i] [|j] Hj; cbn; auto; try congruence. }
+  destruct (reached (cap_node c) (cn s (r_node r))); [cbn; auto 6|].
+  destruct (reached (cap_ns c) (cs s (r_ns r))); [cbn; auto 6|].
+  destruct dry; cbn; intro H; rewrite (nth_error_nth _ _ PRefused (nth_error_set_nth_same i _ _ _ Ep)) in H;
+    discriminate.
+Qed.
